@@ -384,9 +384,37 @@ def explore(body, params=None, name="", *, max_paths=20000, budget_s=None, stop_
         except Unsupported as e:
             res.inconclusive.append(f"unsupported: {e}")
             res.complete = False
-        except Exception as e:  # harness / engine bug: never success
-            res.engine_errors.append({"what": "exception escaped harness body", "exc": repr(e),
-                                      "tb": traceback.format_exc()[-3000:], "trace": repr(c.trace)[:300]})
+        except Exception as e:
+            # an exception the harness did not expect.  If the real code raises the same
+            # exception natively on a model of this path it is the code's behaviour (the
+            # property's outcome was not produced: a violation); otherwise an engine bug.
+            tb = traceback.format_exc()[-3000:]
+            handled = False
+            try:
+                m = c.feasible()
+                if m is not None:
+                    assignment = X.model_values(m)
+                    core.set_ctx(None)
+                    try:
+                        run_native(body, bparams, assignment)
+                    except Exception as e2:
+                        if type(e2) is type(e):
+                            handled = True
+                            if not witness:
+                                res.violations.append({"assignment": jsonable(assignment), "params": jsonable(bparams),
+                                                       "obs_native": {"unexpected_exception": type(e2).__name__, "msg": str(e2)[:200]}})
+                                res.complete = False
+            except BaseException:
+                pass
+            if not handled:
+                res.engine_errors.append({"what": "exception escaped harness body", "exc": repr(e), "tb": tb,
+                                          "trace": repr(c.trace)[:300]})
+            elif stop_on_violation and not witness:
+                res.queries += c.nqueries
+                res.solver_time += c.solver_time
+                res.decisions += c.ndecisions
+                core.set_ctx(None)
+                break
         finally:
             core.set_ctx(None)
         stack.extend(c.pending)
